@@ -202,6 +202,11 @@ def r3(R, repo):
     body = astu.kwarg(rets[0], 'key').body
     first = body.elts[0] if isinstance(body, ast.Tuple) else body
     ok = isinstance(first, ast.UnaryOp) and isinstance(first.op, ast.USub) and astu.src(first.operand).startswith('parent_count[')
+  # the same order spelled `key=lambda t: parent_count[t], reverse=True` (a reverse sort is stable as well)
+  if len(rets) == 1 and isinstance(rets[0], ast.Call) and astu.call_name(rets[0]) == 'sorted' and isinstance(astu.kwarg(rets[0], 'key'), ast.Lambda) and astu.is_const(astu.kwarg(rets[0], 'reverse'), True):
+    body = astu.kwarg(rets[0], 'key').body
+    first = body.elts[0] if isinstance(body, ast.Tuple) else body
+    ok = not isinstance(body, ast.Tuple) and astu.src(first).startswith('parent_count[')
   pc = flow.defs(sv, 'parent_count')
   # the counting helper may be nested or a module-level function called from here
   ctext = astu.src(sv.node) + ''.join(astu.src(g_.node) for g_ in (sv.mod.funcs.get(astu.call_name(x) or '') for x in astu.func_calls(sv)) if g_ is not None)
